@@ -33,7 +33,14 @@ pub async fn resolve_list<'a, T: OutputType + 'a>(
                         OutputType::resolve(&item, &ctx_idx, field)
                             .await
                             .map(Option::Some)
-                            .map_err(|err| ctx_idx.set_error_path(err))
+                            .map_err(|err| {
+                        // keep the path of an error raised deeper inside the item
+                        if err.path.is_empty() {
+                            ctx_idx.set_error_path(err)
+                        } else {
+                            err
+                        }
+                    })
                     };
                     futures_util::pin_mut!(resolve_fut);
                     extensions
@@ -53,7 +60,14 @@ pub async fn resolve_list<'a, T: OutputType + 'a>(
             futures.push(async move {
                 OutputType::resolve(&item, &ctx_idx, field)
                     .await
-                    .map_err(|err| ctx_idx.set_error_path(err))
+                    .map_err(|err| {
+                        // keep the path of an error raised deeper inside the item
+                        if err.path.is_empty() {
+                            ctx_idx.set_error_path(err)
+                        } else {
+                            err
+                        }
+                    })
             });
         }
         Ok(Value::List(
